@@ -63,6 +63,10 @@ func (p *Path) sync(addr *Value) *syncState {
 // spawn starts a new thread running fn(args...).
 func (th *Thread) spawn(fnv Value, args []Value, name string) {
 	p := th.p
+	if p.w.inInit > 0 {
+		p.w.res.InitWarnings["go statement in a package initialiser ignored"]++
+		return
+	}
 	nt := p.newThread()
 	nt.name = name
 	p.wg.Add(1)
@@ -111,7 +115,9 @@ func (th *Thread) spawn(fnv Value, args []Value, name string) {
 			nt.exitSwitch()
 		}()
 	}()
-	th.schedPoint(nil, "go")
+	// no scheduling point here: the new thread can be scheduled at the parent's
+	// next synchronisation operation (preemption points are placed BEFORE
+	// visible operations only)
 }
 
 func (p *Path) enabledThreads() []*Thread {
@@ -135,6 +141,14 @@ func (th *Thread) schedPoint(ready func() bool, desc string) {
 		panic(fmt.Sprintf("schedPoint: thread %d is not current (%d)", th.id, p.cur.id))
 	}
 	if len(p.threads) == 1 && ready == nil {
+		return
+	}
+	if p.w.inInit > 0 {
+		// package initialisers run to completion: no scheduling decisions
+		// (they execute once per worker, not once per path)
+		if ready != nil && !ready() {
+			panic(initAbort{"package initialiser blocks on " + desc})
+		}
 		return
 	}
 	th.ready = ready
@@ -289,6 +303,9 @@ func (p *Path) partner(self *Thread, ch *Chan, wantSend bool) (*Thread, int) {
 	return nil, -1
 }
 
+// maxTickerFires bounds how often one ticker fires on a path (stated bound).
+const maxTickerFires = 2
+
 // timerReady decides (forking if symbolic) whether a timer channel has fired,
 // and if so deposits the tick.
 func (p *Path) timerPoll(ch *Chan) {
@@ -304,6 +321,11 @@ func (p *Path) timerPoll(ch *Chan) {
 		ch.buf = append(ch.buf, p.timeValue(p.clock))
 		if ts.period != nil {
 			ts.deadline = Bin(OpAdd, ts.deadline, ts.period)
+			ts.fires++
+			if ts.fires >= maxTickerFires {
+				// bounded exploration: a ticker fires at most maxTickerFires times per path
+				ts.active = false
+			}
 		} else {
 			ts.active = false
 		}
